@@ -44,13 +44,17 @@ def ctc_ref(P):
 
 
 def ref_beam_search(P, k, sel):
-    """independent frame-synchronous prefix beam search in the probability domain; returns (final dict, tie flag)"""
+    """independent frame-synchronous prefix beam search in the probability domain; with ties at the k-th place every
+    admissible tie-break is followed: returns the list of possible final {prefix: score} dictionaries"""
     T, C = len(P), len(P[0])
     blank = C - 1
-    beam = {(): (1.0, 0.0)}
-    tie = False
     thr = math.exp(-10)
-    for t in range(T):
+    finals = []
+
+    def step(t, beam):
+        if t == T:
+            finals.append({y: b + nb for y, (b, nb) in beam.items()})
+            return
         selected = [c for c in range(C - 1) if (sel == 'all' or P[t][c] > thr)]
         cand = {}
         for y, (b, nb) in beam.items():
@@ -62,13 +66,20 @@ def ref_beam_search(P, k, sel):
                 e2 = cand.setdefault(y + (c,), [0.0, 0.0])
                 e2[1] += P[t][c] * (b + (nb if not (y and y[-1] == c) else 0.0))
         if not selected:
-            beam = {y: (cand[y][0], 0.0) for y in beam}
-            continue
+            return step(t + 1, {y: (cand[y][0], 0.0) for y in beam})
         items = sorted(((v[0] + v[1], y) for y, v in cand.items() if v[0] + v[1] > 0), reverse=True)
-        if len(items) > k and abs(items[k - 1][0] - items[k][0]) <= 1e-12 * max(1.0, items[k][0]):
-            tie = True
-        beam = {y: tuple(cand[y]) for _, y in items[:k]}
-    return {y: b + nb for y, (b, nb) in beam.items()}, tie
+        if len(items) <= k:
+            return step(t + 1, {y: tuple(cand[y]) for _, y in items})
+        v = items[k - 1][0]
+        close = lambda a: abs(a - v) <= 1e-12 * max(1.0, v)
+        sure = [y for a, y in items if a > v and not close(a)]
+        tied = [y for a, y in items if close(a)]
+        for sub in itertools.combinations(tied, k - len(sure)):
+            step(t + 1, {y: tuple(cand[y]) for y in sure + list(sub)})
+            if len(finals) > 500:
+                return
+    step(0, {(): (1.0, 0.0)})
+    return finals
 
 
 def _decode(case):
@@ -105,12 +116,14 @@ def _check(case):
             for y in ref:
                 if abs(got[y] - ref[y]) > 1e-9 * max(1.0, ref[y]):
                     bad.append('unpruned: score of %r %.12g != %.12g' % (y, got[y], ref[y]))
-    rb, tie = ref_beam_search(P, k, case['sel'])
-    if not tie:
+    finals = ref_beam_search(P, k, case['sel'])
+    if len(finals) <= 500:
         got = {tuple(letters.index(ch) for ch in t): math.exp(sc) for t, sc in hyps}
-        if set(got) != set(rb):
-            bad.append('differs from reference prefix beam search: %r vs %r' % (sorted(got), sorted(rb)))
-        else:
+        same = [rb for rb in finals if set(rb) == set(got)]
+        if not same:
+            bad.append('differs from reference prefix beam search under every tie-break: %r vs %r' % (sorted(got), [sorted(rb) for rb in finals[:4]]))
+        elif not any(all(abs(got[y] - rb[y]) <= 1e-9 * max(1e-30, rb[y]) for y in rb) for rb in same):
+            rb = same[0]
             for y in rb:
                 if abs(got[y] - rb[y]) > 1e-9 * max(1e-30, rb[y]):
                     bad.append('score of %r %.12g != reference beam search %.12g' % (y, got[y], rb[y]))
